@@ -4,6 +4,7 @@ import (
 	"go/constant"
 	"go/token"
 	"go/types"
+	"strings"
 
 	"golang.org/x/tools/go/ssa"
 )
@@ -1506,4 +1507,72 @@ func isLoggingCall(c *ssa.Call) bool {
 		return len(n) >= 5 && (n[:5] == "Print" || n[:5] == "Fprin" || n[:5] == "Sprin")
 	}
 	return false
+}
+
+// ---------------------------------------------------------------------------
+// CH-CLOSE — a channel held in a struct field that some function sends on is
+// never closed: the sender cannot know (a send on a closed channel panics, also
+// inside a select with a default arm). Channels that are only received from
+// (stop channels) may be closed.
+
+func ruleCHCLOSE(p *Program, r *Reporter) {
+	const id = "CH-CLOSE"
+	chanField := func(v ssa.Value) *types.Var {
+		for i := 0; i < 3; i++ {
+			switch x := v.(type) {
+			case *ssa.UnOp:
+				if fa, ok := x.X.(*ssa.FieldAddr); ok {
+					return fieldOfAddr(fa)
+				}
+				v = x.X
+			case *ssa.ChangeType:
+				v = x.X
+			default:
+				return nil
+			}
+		}
+		return nil
+	}
+	sends := map[*types.Var]token.Pos{}
+	type closeSite struct {
+		fn  *ssa.Function
+		ins ssa.Instruction
+		fld *types.Var
+	}
+	var closes []closeSite
+	for _, fn := range p.srcFuncs {
+		if strings.HasPrefix(pkgOf(fn), "cmd/") {
+			continue
+		}
+		for _, b := range fn.Blocks {
+			for _, ins := range b.Instrs {
+				switch x := ins.(type) {
+				case *ssa.Send:
+					if f := chanField(x.Chan); f != nil {
+						sends[f] = x.Pos()
+					}
+				case *ssa.Select:
+					for _, st := range x.States {
+						if st.Dir == types.SendOnly {
+							if f := chanField(st.Chan); f != nil {
+								sends[f] = x.Pos()
+							}
+						}
+					}
+				case *ssa.Call:
+					if bi, ok := x.Call.Value.(*ssa.Builtin); ok && bi.Name() == "close" && len(x.Call.Args) == 1 {
+						if f := chanField(x.Call.Args[0]); f != nil {
+							closes = append(closes, closeSite{fn, x, f})
+						}
+					}
+				}
+			}
+		}
+	}
+	for _, c := range closes {
+		pos, sent := sends[c.fld]
+		r.Ob(id, funcName(c.fn), "close of "+lockClassName(c.fld), c.ins.Pos(), !sent, true,
+			ifs(!sent, "nothing sends on this channel: closing it only wakes its receivers", "this channel is closed here while "+p.Pos(pos)+" sends on it: a send that races with the close panics with \"send on closed channel\""))
+	}
+	r.Count(id, 1) // the census of field channels is the obligation, also when nothing is closed
 }
